@@ -982,6 +982,20 @@ impl<C: Crypto> ImRig<C> {
         Exchange::initiate_for_session(&self.ctrl, &self.ctrl_crypto, ctrl_session)
     }
 
+    /// (added for C14) The numbers of the events the device currently stores, in the order in which
+    /// its queue is iterated when reporting (verif hook `Events::verif_stored_event_numbers`).
+    pub fn stored_event_numbers(&self) -> Vec<u64> {
+        let mut v = Vec::new();
+        self.state.events().verif_stored_event_numbers(&mut |n| v.push(n));
+        v
+    }
+
+    /// (added for C14) Wait for the next exchange the device opens towards the controller (e.g. a
+    /// subscription report).
+    pub async fn accept(&self) -> Result<Exchange<'_>, Error> {
+        Exchange::accept(&self.ctrl).await
+    }
+
     /// Queue "emit an event on the device" (payload = one encoded TLV element with an anonymous
     /// tag, normally a struct; a field with context tag 0xFE makes it fabric-sensitive).
     pub fn emit_event(&self, ep: u16, cl: u32, ev: u32, prio: u8, payload: Vec<u8>) {
@@ -1442,6 +1456,9 @@ pub struct ReadOutcome {
     pub subscribed: Option<(u32, u16)>,
     /// transport error, silence, or an undecodable / unexpected message
     pub error: Option<String>,
+    /// (added for C14) the payload octets of every ReportData message received, in order
+    /// (`raw.len() >= chunks`: an undecodable message is recorded too)
+    pub raw: Vec<Vec<u8>>,
 }
 
 #[derive(Debug, Clone, PartialEq)]
@@ -1604,6 +1621,7 @@ async fn report_loop(ex: &mut Exchange<'_>, subscribe: bool, on_chunk: &mut dyn 
             }
             break;
         } else if op == OpCode::ReportData as u8 {
+            out.raw.push(payload.clone());
             let Some((_, msg)) = tlv::parse(&payload) else {
                 out.error = Some("undecodable ReportData (TLV)".into());
                 break;
@@ -1661,6 +1679,13 @@ pub async fn subscribe(ex: &mut Exchange<'_>, req: &SubscribeReq, on_chunk: &mut
         return ReadOutcome { error: Some(e), ..Default::default() };
     }
     report_loop(ex, true, on_chunk).await
+}
+
+/// (added for C14) Collect one device-initiated report (a subscription report) on an exchange
+/// obtained from [`ImRig::accept`]: all its ReportData chunks, each confirmed with a success
+/// StatusResponse unless it is the last one and asks for no response.
+pub async fn report(ex: &mut Exchange<'_>, on_chunk: &mut dyn FnMut(usize, &ReadOutcome)) -> ReadOutcome {
+    report_loop(ex, false, on_chunk).await
 }
 
 async fn do_timed(ex: &mut Exchange<'_>, t: &Timed, times: &mut [u64; 4]) -> Result<u16, String> {
